@@ -177,6 +177,7 @@ def explore(ctx):
                 dict(desc, key='roundtrip:' + first_difference(v, back, model, text)[:80], text=text[:800],
                      loaded=repr(back)[:600], error=err))
     explore_chains(ctx, yaml, yatiml)
+    explore_structural(ctx, yaml, yatiml)
 
 
 def explore_chains(ctx, yaml, yatiml):
@@ -226,6 +227,125 @@ def explore_chains(ctx, yaml, yatiml):
                           'hooks)'.format('raises ' + err if err else 'gives {!r}'.format(back), v)[:500],
                           dict(key='roundtrip-chain:' + type(v).__name__, classes=model.source[-2500:],
                                text=text[:600], loaded=repr(back)[:300], error=err))
+
+
+STRUCTURAL_SRC = '''
+import yatiml
+from collections import OrderedDict
+from typing import Any, Dict, List, Optional
+
+class _Eq:
+    def __eq__(self, o): return type(o) is type(self) and vars(o) == vars(self)
+    def __repr__(self): return type(self).__name__ + repr(vars(self))
+
+class Employee(_Eq):
+    def __init__(self, name: str, roles: {VT}{EXTRA}) -> None:
+        self.name = name
+        self.roles = roles{EXTRA_SET}
+
+class Company(_Eq):
+    def __init__(self, staff: {CT}) -> None:
+        self.staff = staff
+    @classmethod
+    def _yatiml_recognize(cls, node: yatiml.UnknownNode) -> None:
+        # recognition runs before savorizing: the sweetened form needs a recogniser of its own
+        node.require_attribute('staff')
+    @classmethod
+    def _yatiml_sweeten(cls, node: yatiml.Node) -> None:
+        node.{SWEETEN}('staff', 'name', {VA})
+    @classmethod
+    def _yatiml_savorize(cls, node: yatiml.Node) -> None:
+        node.{SAVORIZE}('staff', 'name', {VA})
+
+class Box(_Eq):
+    def __init__(self, width: int = 1, height: int = 2, _yatiml_extra: Optional[OrderedDict] = None) -> None:
+        self.width = width
+        self.height = height
+        self._yatiml_extra = _yatiml_extra if _yatiml_extra is not None else OrderedDict()
+    @classmethod
+    def _yatiml_sweeten(cls, node: yatiml.Node) -> None:
+        node.remove_attributes_with_default_values(cls)
+
+class Part(_Eq):
+    def __init__(self, count: int, spare: int = 5, label: str = 'x',
+                 _yatiml_extra: Optional[OrderedDict] = None) -> None:
+        self.count = count
+        self.spare = spare
+        self.label = label
+        self._yatiml_extra = _yatiml_extra if _yatiml_extra is not None else OrderedDict()
+    @classmethod
+    def _yatiml_sweeten(cls, node: yatiml.Node) -> None:
+        node.remove_attributes_with_default_values(cls)
+'''
+
+
+def explore_structural(ctx, yaml, yatiml):
+    """hand-written classes whose hooks are the documented inverse pairs of the structural transforms
+    (index <-> map, seq <-> map, with list / scalar value attributes, short and long forms) and classes
+    that drop defaulted attributes on the way out (with a defaulted _yatiml_extra)"""
+    from collections import OrderedDict
+    rng = ctx.rng
+    for kind in ('index', 'seq'):
+        for vt, mk in (('List[str]', lambda: rng.sample(['Director', 'Sales', 'Ops'], rng.randint(0, 3))),
+                       ('str', lambda: rng.choice(['boss', '12', 'true'])), ('int', lambda: rng.randint(0, 9))):
+            for va in ("'roles'", 'None'):
+                for extra in (False, True):
+                    src = STRUCTURAL_SRC.format(
+                        VT=vt, VA=va, EXTRA=', grade: int = 0' if extra else '',
+                        EXTRA_SET='\n        self.grade = grade' if extra else '',
+                        CT='Dict[str, Employee]' if kind == 'index' else 'List[Employee]',
+                        SWEETEN='index_attribute_to_map' if kind == 'index' else 'seq_attribute_to_map',
+                        SAVORIZE='map_attribute_to_index' if kind == 'index' else 'map_attribute_to_seq')
+                    ns = {}
+                    try:
+                        exec(src, ns)
+                        dumps = yatiml.dumps_function(ns['Company'], ns['Employee'])
+                        load = yatiml.load_function(ns['Company'], ns['Employee'])
+                    except Exception as e:  # noqa
+                        ctx.count('structural_gen_error:' + type(e).__name__)
+                        continue
+                    for _ in range(ctx.budget(2, 10)):
+                        names = rng.sample(['Mary', 'Bo', 'x y', '12'], rng.randint(0, 3))
+                        emps = [ns['Employee'](n, mk(), *([rng.randint(0, 2)] if extra else [])) for n in names]
+                        v = ns['Company'](OrderedDict((e.name, e) for e in emps) if kind == 'index' else emps)
+                        try:
+                            text = dumps(v)
+                            back = load(text)
+                            if kind == 'index' and isinstance(back.staff, dict):
+                                back.staff = OrderedDict(back.staff)
+                            ok, err = back == v, None
+                        except Exception as e:  # noqa
+                            ok, err, back, text = False, '{}: {}'.format(type(e).__name__, str(e)[:160]), None, locals().get('text', '')
+                        ctx.case(('structural', kind, vt, va, extra, repr(v)[:120]), nontrivial=True)
+                        ctx.count('structural_roundtrips')
+                        if not ok:
+                            ctx.violation('load(dumps(v)) {} for v = {!r} ({} <-> map hooks, value attribute {} of type {})'.format(
+                                'raises ' + err if err else 'gives {!r}'.format(back), v, kind, va, vt)[:500],
+                                dict(key='roundtrip-structural:{}:{}:{}'.format(kind, vt, va), classes=src[-1800:], text=text[:400]))
+                            break
+    src = STRUCTURAL_SRC.format(VT='str', VA='None', EXTRA='', EXTRA_SET='', CT='List[Employee]',
+                                SWEETEN='seq_attribute_to_map', SAVORIZE='map_attribute_to_seq')
+    ns = {}
+    exec(src, ns)
+    dumps = yatiml.dumps_function(ns['Box'], ns['Part'])
+    vals = [ns['Box'](w, h) for w in (1, 2, 3) for h in (1, 2, 3)] + \
+        [ns['Box'](2, 3, OrderedDict(note=1))] + \
+        [ns['Part'](c, sp, lb) for c in (0, 5) for sp in (5, 0) for lb in ('x', 'y', '5')]
+    for v in vals:
+        load = yatiml.load_function(type(v), ns['Box'], ns['Part'])
+        try:
+            text = dumps(v)
+            back = load(text)
+            ok, err = back == v, None
+        except Exception as e:  # noqa
+            ok, err, back, text = False, '{}: {}'.format(type(e).__name__, str(e)[:160]), None, locals().get('text', '')
+        ctx.case(('defaults-dropped', repr(v)), nontrivial=True)
+        ctx.count('defaults_roundtrips')
+        if not ok:
+            ctx.violation('load(dumps(v)) {} for v = {!r} (defaulted attributes dropped by sweeten, defaulted '
+                          '_yatiml_extra)'.format('raises ' + err if err else 'gives {!r}'.format(back), v)[:500],
+                          dict(key='roundtrip-defaults:' + type(v).__name__, text=text[:300]))
+            break
 
 
 def all_dicts(v, acc, seen):
